@@ -1344,6 +1344,11 @@ func checkC09core(cx *Ctx, r *Report, withBCE bool) {
 					switch {
 					case n == "log.Fatal" || n == "log.Fatalf" || n == "log.Fatalln" || n == "os.Exit" || n == "log.Panic" || n == "log.Panicf" || strings.HasSuffix(n, "logging.Fatal") || strings.HasSuffix(n, "logging.Panic"):
 						r.Fail("R-PANIC", w.FuncKey(fn)+":"+shortCallee(n), w.InstrPos(x), "the process is terminated / panics on a request path")
+					case strings.HasSuffix(n, "etree.Element).FindElement") || strings.HasSuffix(n, "etree.Element).FindElements") || strings.HasSuffix(n, "etree.Document).FindElement") || strings.HasSuffix(n, "etree.Document).FindElements"):
+						// etree compiles the path with MustCompilePath: a malformed path panics
+						if _, isC := x.Common().Args[len(x.Common().Args)-1].(*ssa.Const); !isC {
+							r.Fail("R-PANIC", w.FuncKey(fn)+":"+shortCallee(n), w.InstrPos(x), shortCallee(n)+" is given a path that is not a constant (text from the request spliced into it): etree panics on a malformed path")
+						}
 					case strings.Contains(shortCallee(n), ".Must") && fn.Name() != "init":
 						allConst := true
 						for _, a := range x.Common().Args {
